@@ -15,6 +15,7 @@
 #include "../MatOp/internal/ArnoldiOp.h"
 #include "../Util/TypeTraits.h"
 #include "../Util/SimpleRandom.h"
+#include "../Util/VerifHooks.h"
 #include "UpperHessenbergQR.h"
 #include "DoubleShiftQR.h"
 
@@ -68,6 +69,7 @@ protected:
         {
             // Randomly generate a new vector and orthogonalize it against V
             SimpleRandom<Scalar> rng(seed + 123 * iter);
+            SPECTRA_VERIF_EVENT("arnoldi.expand_basis", this, seed, iter);
             // The first try forces f to be in the range of A
             if (iter == 0)
             {
@@ -177,6 +179,7 @@ public:
 
         // Indicate that this is a step-1 factorization
         m_k = 1;
+        SPECTRA_VERIF_EVENT("arnoldi.init", this, m_k, op_counter);
     }
 
     // Arnoldi factorization starting from step-k
@@ -277,6 +280,7 @@ public:
 
         // Indicate that this is a step-m factorization
         m_k = to_m;
+        SPECTRA_VERIF_EVENT("arnoldi.factorize_from", this, from_k, to_m);
     }
 
     // Apply H -> Q'HQ, where Q is from a double shift QR decomposition
@@ -321,6 +325,7 @@ public:
         Vector fk = m_fac_f * Q(m_m - 1, m_k - 1) + m_fac_V.col(m_k) * m_fac_H(m_k, m_k - 1);
         m_fac_f.swap(fk);
         m_beta = m_op.norm(m_fac_f);
+        SPECTRA_VERIF_EVENT("arnoldi.compress_V", this, m_k, m_m);
     }
 };
 
